@@ -2,6 +2,7 @@ package c11
 
 import (
 	"fmt"
+	"strings"
 
 	"pgregory.net/rapid"
 )
@@ -116,9 +117,9 @@ func (g *genState) tokenHostFor(owner int, label string) int {
 func (g *genState) challenge(owner int, label string, standing bool) ChallengeSpec {
 	ch := ChallengeSpec{RealmFor: -1, TokenHost: owner}
 	if standing {
-		ch.Kind = pick(g.t, label+".kind", "basic", 3, "bearer", 6, "basic+bearer", 1, "bearer+basic-2h", 1, "unsupported+bearer", 1)
+		ch.Kind = pick(g.t, label+".kind", "basic", 6, "bearer", 12, "basic+bearer", 2, "bearer+basic-2h", 2, "unsupported+bearer", 2, "bearer+bearer", 1)
 	} else {
-		ch.Kind = pick(g.t, label+".kind", "basic", 4, "bearer", 6, "basic+bearer", 1, "bearer+basic-2h", 1, "unsupported+bearer", 1, "malformed", 2, "unsupported", 1, "empty", 1)
+		ch.Kind = pick(g.t, label+".kind", "basic", 4, "bearer", 6, "basic+bearer", 1, "bearer+basic-2h", 1, "unsupported+bearer", 1, "malformed", 2, "unsupported", 1, "empty", 1, "bearer+bearer", 1)
 	}
 	ch.Variant = between(g.t, label+".variant", 0, 23)
 	if ch.hasBearer() || ch.Kind == "malformed" {
@@ -185,20 +186,28 @@ func (g *genState) extras(i int, label string, pct int) {
 func (g *genState) clientCfg(i int, label string, mustCred bool) {
 	h := &g.c.Hosts[i]
 	hub := h.Name == hubDNS
-	h.Cfg = pick(g.t, label+".cfg", "host", 5, "docker", 4)
-	if mustCred || h.Cfg == "docker" {
+	h.Cfg = pick(g.t, label+".cfg", "host", 10, "docker", 8, "helper", 2)
+	switch {
+	case h.Cfg == "helper":
+		h.CredKind = pick(g.t, label+".cred", "userpass", 2, "token", 1)
+	case mustCred || h.Cfg == "docker":
 		h.CredKind = pick(g.t, label+".cred", "userpass", 5, "token", 2, "both", 2)
-	} else {
-		h.CredKind = pick(g.t, label+".cred", "userpass", 5, "token", 2, "both", 2, "none", 1)
+	default:
+		h.CredKind = pick(g.t, label+".cred", "userpass", 10, "token", 4, "both", 4, "none", 2, "useronly", 1)
 	}
 	h.RepoAuth = chance(g.t, label+".repoauth", 35)
-	if h.Cfg == "host" {
+	h.NoHead = chance(g.t, label+".nohead", 10)
+	if h.Cfg == "host" || h.Cfg == "helper" {
 		h.TLS = pick(g.t, label+".tls", "", 3, "enabled", 2, "insecure", 2, "disabled", 3)
 		if !hub && chance(g.t, label+".alias", 15) {
 			h.CfgName = fmt.Sprintf("alias-%d.example.test", i)
 		}
+		if h.Cfg == "host" && h.CfgName == "" {
+			h.AlsoDocker = chance(g.t, label+".alsodocker", 10)
+		}
 		return
 	}
+	h.DupKey = chance(g.t, label+".dupkey", 15)
 	if hub {
 		h.Key = pick(g.t, label+".key", "hub-legacy", 3, "hub-name", 1, "hub-dns", 1)
 	} else {
@@ -220,6 +229,12 @@ func gen(t *rapid.T) Case {
 	c.Special = chance(t, "special", 35)
 	c.Chunked = chance(t, "chunked", 30)
 	c.LogVia = pick(t, "logvia", "", 4, "json", 1, "logrus", 2, "logrus-json", 1)
+	c.DefTLS = pick(t, "deftls", "", 12, "disabled", 2, "insecure", 1, "enabled", 1)
+	c.DefRepoAuth = chance(t, "defrepoauth", 10)
+	c.DefHelper = chance(t, "defhelper", 5)
+	c.DockerEnv = chance(t, "dockerenv", 25)
+	c.Cache = chance(t, "cache", 20)
+	c.Parallel = chance(t, "parallel", 15)
 
 	// ---- registries with credentials
 	nReg := between(t, "nreg", 2, 3)
@@ -230,6 +245,24 @@ func gen(t *rapid.T) Case {
 	base := []string{"reg-a.example.test", "reg-b.example.test", "reg-c.internal.test"}
 	for i := 0; i < nReg; i++ {
 		name := base[i] + pick(t, fmt.Sprintf("reg%d.port", i), "", 3, ":5000", 2, ":443", 1)
+		if i > 0 {
+			// other accepted registry name forms: localhost, IPv4 with port, upper case single label, trailing dot
+			switch pick(t, fmt.Sprintf("reg%d.nameform", i), "domain", 14, "localhost", 1, "localhost-port", 1, "ipv4-port", 1, "upper", 1, "trailing-dot", 1) {
+			case "localhost":
+				name = "localhost"
+				if i > 1 {
+					name = "localhost:5002"
+				}
+			case "localhost-port":
+				name = fmt.Sprintf("localhost:%d", 5000+i)
+			case "ipv4-port":
+				name = fmt.Sprintf("127.0.0.%d:5000", i)
+			case "upper":
+				name = fmt.Sprintf("REGISTRY%d", i)
+			case "trailing-dot":
+				name = base[i] + "."
+			}
+		}
 		if i == hubAt {
 			name = hubDNS
 		}
@@ -239,9 +272,14 @@ func gen(t *rapid.T) Case {
 		h.RefPage = rapid.SampledFrom([]int{0, 0, 1}).Draw(t, fmt.Sprintf("reg%d.refpage", i))
 		h.LocStyle = between(t, fmt.Sprintf("reg%d.locstyle", i), 0, 3)
 		h.LocScheme = pick(t, fmt.Sprintf("reg%d.locscheme", i), "", 10, "http", 1, "https", 1)
+		h.HeadNoDigest = chance(t, fmt.Sprintf("reg%d.headnodigest", i), 20)
+		h.NoTagDelete = chance(t, fmt.Sprintf("reg%d.notagdelete", i), 40)
 		h.NoMountGrant = chance(t, fmt.Sprintf("reg%d.nomountgrant", i), 35)
 		h.AnonMount = rapid.SampledFrom([]int{0, 0, 0, 201, 405}).Draw(t, fmt.Sprintf("reg%d.anonmount", i))
 		c.Hosts = append(c.Hosts, h)
+		if i == 2 && i != hubAt && chance(t, "reg2.unconfigured", 12) {
+			continue // a registry the client only knows by name (defaults apply, no credentials)
+		}
 		g.clientCfg(i, fmt.Sprintf("reg%d", i), i < 2)
 	}
 	for i := 1; i < nReg; i++ {
@@ -252,10 +290,14 @@ func gen(t *rapid.T) Case {
 			c.Hosts[i].MirrorOf = 0
 			c.Hosts[i].MirrorHas = chance(t, fmt.Sprintf("reg%d.mirrorhas", i), 60)
 			c.Hosts[i].Priority = between(t, fmt.Sprintf("reg%d.prio", i), 0, 3)
+			if c.Hosts[i].Cfg != "" && chance(t, fmt.Sprintf("reg%d.pathprefix", i), 15) {
+				c.Hosts[i].PathPrefix = "mirrored"
+			}
 			c.Hosts[0].Mirrors = append(c.Hosts[0].Mirrors, i)
 		}
 	}
 	if len(c.Hosts[0].Mirrors) > 0 {
+		c.Hosts[0].DupMirror = chance(t, "reg0.dupmirror", 10)
 		c.Hosts[0].Priority = between(t, "reg0.prio", 0, 3)
 	}
 	if chance(t, "unused", 25) {
@@ -272,11 +314,34 @@ func gen(t *rapid.T) Case {
 	case "storage":
 		r := pickReg("redirect.reg")
 		h := newHost("storage", "blobs.cdn.example.net")
+		// a redirect target inside the registry's own domain: net/http treats a sub-domain and the same
+		// host name with another port as "same site" for its sensitive-header rule
+		if !c.isHub(r) {
+			bare := c.Hosts[r].Name
+			if k := strings.LastIndexByte(bare, ':'); k > 0 {
+				bare = bare[:k]
+			}
+			switch pick(t, "redirect.storagename", "other-domain", 6, "subdomain", 2, "other-port", 1) {
+			case "subdomain":
+				if bare != "localhost" && !strings.HasPrefix(bare, "127.") {
+					h.Name = "blobs." + strings.TrimSuffix(bare, ".")
+				}
+			case "other-port":
+				h.Name = bare + ":8443"
+			}
+		}
 		h.Origin = r
 		h.Scheme = pick(t, "redirect.scheme", "", 5, "http", 1)
 		c.Hosts = append(c.Hosts, h)
 		c.Hosts[r].RedirectTo = len(c.Hosts) - 1
 		c.Hosts[r].RedirectStatus = rapid.SampledFrom([]int{307, 302, 301, 303, 308}).Draw(t, "redirect.status")
+		if chance(t, "redirect.hop2", 15) {
+			h2 := newHost("storage", "edge.cdn.example.net")
+			h2.Origin = r
+			h2.Scheme = pick(t, "redirect.hop2scheme", "", 5, "http", 1)
+			c.Hosts = append(c.Hosts, h2)
+			c.Hosts[len(c.Hosts)-2].RedirectTo = len(c.Hosts) - 1
+		}
 	case "self":
 		r := pickReg("redirect.reg")
 		c.Hosts[r].RedirectTo = r
@@ -300,6 +365,12 @@ func gen(t *rapid.T) Case {
 		h := newHost("external", "files.ext.example.org")
 		h.Scheme = pick(t, "external.scheme", "", 5, "http", 1)
 		c.Hosts = append(c.Hosts, h)
+	}
+	if chance(t, "external.onreg", 12) {
+		c.ExtOnReg = pickReg("external.onreg.reg") + 1
+	}
+	if c.hasExt() {
+		c.ExtBadFirst = chance(t, "external.badfirst", 20)
 	}
 	if chance(t, "upload", 35) {
 		r := pickReg("upload.reg")
@@ -330,6 +401,24 @@ func gen(t *rapid.T) Case {
 			g.standingAuth(i, fmt.Sprintf("auth%d", i), 75)
 			g.extras(i, fmt.Sprintf("auth%d", i), 60)
 		}
+	}
+	// the token service of a registry moved: its endpoint answers with a redirect to another host
+	for i := 0; i < nFixed; i++ {
+		h := &c.Hosts[i]
+		if h.Kind != "registry" || h.Unused || !h.Auth.Ch.hasBearer() || !chance(t, fmt.Sprintf("auth%d.tokredir", i), 10) {
+			continue
+		}
+		var cands []int
+		for x := range c.Hosts {
+			if x != h.Auth.Ch.TokenHost {
+				cands = append(cands, x)
+			}
+		}
+		if len(cands) == 0 {
+			continue
+		}
+		h.Auth.TokRedir = rapid.SampledFrom(cands).Draw(t, fmt.Sprintf("auth%d.tokredir.to", i)) + 1
+		h.Auth.TokRedirSt = rapid.SampledFrom([]int{307, 308, 302, 301, 303}).Draw(t, fmt.Sprintf("auth%d.tokredir.st", i))
 	}
 	// token hosts created on the way may challenge too (rarely)
 	for i := nFixed; i < len(c.Hosts) && i < nFixed+3; i++ {
@@ -400,17 +489,31 @@ func gen(t *rapid.T) Case {
 	nOps := between(t, "nops", 1, 6)
 	for k := 0; k < nOps; k++ {
 		l := fmt.Sprintf("op%d", k)
-		o := Op{Kind: pick(t, l+".kind", "bget", 4, "mget", 2, "copy", 4, "bput", 3, "tags", 3, "referrers", 2, "ping", 1, "mhead", 1, "mput", 1, "mdel", 1, "bhead", 1, "bmount", 2, "bdel", 1, "catalog", 1)}
+		o := Op{Kind: pick(t, l+".kind", "bget", 8, "mget", 4, "copy", 8, "bput", 6, "tags", 6, "referrers", 4, "ping", 2, "mhead", 2, "mput", 2, "mdel", 2, "bhead", 2, "bmount", 4, "bdel", 2, "catalog", 2,
+			"tagdel", 2, "bcopy", 3, "imgconfig", 1, "export", 1, "refsrc", 2, "mputsub", 2)}
 		o.Reg = rapid.SampledFrom(append([]int{0}, regs...)).Draw(t, l+".reg")
 		o.Repo = between(t, l+".repo", 0, 1)
-		o.Tag = pick(t, l+".tag", "v1", 2, "ext", 1)
+		o.Tag = pick(t, l+".tag", "v1", 4, "ext", 2, "idx", 2)
 		o.Digest = chance(t, l+".digest", 30)
+		o.Form = rapid.SampledFrom([]int{0, 0, 0, 0, 0, 0, 1, 2}).Draw(t, l+".form")
 		o.Blob = rapid.SampledFrom([]int{1, 2, 0, 3, 3}).Draw(t, l+".blob")
-		o.N = between(t, l+".n", 0, 5)
-		if o.Kind == "copy" || o.Kind == "bmount" {
+		o.N = between(t, l+".n", 0, 8)
+		o.Cancel = rapid.SampledFrom([]int{0, 0, 0, 0, 0, 0, 0, 0, 0, 0, 0, 0, 0, 0, 0, 0, -1, 1, 2, 3, 5}).Draw(t, l+".cancel")
+		switch o.Kind {
+		case "copy":
 			o.Tgt = rapid.SampledFrom(regs).Draw(t, l+".tgt")
 			o.TgtRepo = between(t, l+".tgtrepo", 0, 1)
-			o.Flags = between(t, l+".flags", 0, 7)
+			o.Flags = between(t, l+".flags", 0, 31)
+			if chance(t, l+".layout", 10) {
+				o.Flags |= 32
+			}
+		case "bmount", "bcopy", "refsrc":
+			o.Tgt = rapid.SampledFrom(regs).Draw(t, l+".tgt")
+			o.TgtRepo = between(t, l+".tgtrepo", 0, 1)
+		case "bput":
+			o.Flags = rapid.SampledFrom([]int{0, 0, 0, 1, 1, 2, 3}).Draw(t, l+".flags")
+		case "mget", "mhead", "mdel", "catalog", "tags":
+			o.Flags = rapid.SampledFrom([]int{0, 0, 1}).Draw(t, l+".flags")
 		}
 		c.Ops = append(c.Ops, o)
 	}
@@ -446,7 +549,7 @@ func gen(t *rapid.T) Case {
 		c.Ops = append(c.Ops, Op{Kind: "bmount", Reg: src, Repo: between(t, "aim.xmount.repo", 0, 1), Tag: "v1", Blob: between(t, "aim.xmount.blob", 0, 2),
 			Tgt: rapid.SampledFrom(others).Draw(t, "aim.xmount.tgt"), TgtRepo: between(t, "aim.xmount.tgtrepo", 0, 1)})
 	}
-	if c.extHost() >= 0 && chance(t, "aim.external", 60) {
+	if c.hasExt() && chance(t, "aim.external", 60) {
 		r := rapid.SampledFrom(regs).Draw(t, "aim.external.reg")
 		if chance(t, "aim.external.copy", 40) {
 			c.Ops = append(c.Ops, Op{Kind: "copy", Reg: r, Repo: 0, Tag: "ext", Tgt: rapid.SampledFrom(regs).Draw(t, "aim.external.tgt"), TgtRepo: 1, Flags: 1})
